@@ -542,6 +542,13 @@ class Pure:
         raise Unsupported(f"unknown name {e.id} in specification")
 
     def ev_Attribute(self, e):
+        if isinstance(e.value, ast.Name) and e.value.id in api.CLASSES and e.value.id not in self.env.vars:
+            from .symexec import CLASS_ATTRS
+
+            key = f"{e.value.id}.{e.attr}"
+            if key in CLASS_ATTRS:
+                return CLASS_ATTRS[key]()
+            raise Unsupported(f"class attribute {key}")
         base = self.ev(e.value)
         return read_field(self.ctx, self.env.heap, base, e.attr)
 
@@ -550,8 +557,18 @@ class Pure:
         if isinstance(e.slice, ast.Slice):
             if not isinstance(base, VSeq):
                 raise Unsupported("slice of non-sequence")
-            lo = self.ev(e.slice.lower).t if e.slice.lower is not None else z3.IntVal(0)
-            hi = self.ev(e.slice.upper).t if e.slice.upper is not None else z3.Length(base.t)
+            def bound(x, default):
+                if x is None:
+                    return default
+                v = self.ev(x)
+                if isinstance(v, VOpt):
+                    return z3.If(v.isnone, default, v.inner.t)
+                if isinstance(v, VNone):
+                    return default
+                return v.t
+
+            lo = bound(e.slice.lower, z3.IntVal(0))
+            hi = bound(e.slice.upper, z3.Length(base.t))
             return VSeq(base.kind, z3.SubSeq(base.t, lo, hi - lo))
         if isinstance(base, VRec):
             k = self.ev(e.slice)
